@@ -82,7 +82,7 @@ def via_events(ctx, chunks, boundary):
             if isinstance(ev, Field):
                 cur = [ev.name, None, b"", None]
             elif isinstance(ev, File):
-                cur = [ev.name, ev.filename, b"", ev.headers.get("content-type")]
+                cur = [ev.name, ev.filename, b"", MC.observed_headers(ev.filename, ev.headers)]
             elif isinstance(ev, Data):
                 cur[2] += ev.data
                 if not ev.more_data:
@@ -128,7 +128,7 @@ def norm(items):
             out.append((n, None, v.encode("utf-8"), None))
         else:
             data = read_upload(v, (i + len(items)) % 3)
-            out.append((n, v.filename, data, v.headers.get("content-type")))
+            out.append((n, v.filename, data, MC.observed_headers(v.filename, v.headers)))
             v.close()
     return out
 
@@ -260,7 +260,7 @@ def judge(ctx, form, body, spans, exp, cuts, path, chunks=None):
             how = f"part-count-{'more' if len(got) > len(exp) else 'fewer'}"
         else:
             i = next(i for i in range(len(exp)) if got[i] != exp[i])
-            f = [k for k, (a, b) in zip(("name", "filename", "content", "content-type"), zip(got[i], exp[i])) if a != b]
+            f = [k for k, (a, b) in zip(("name", "filename", "content", "part-headers"), zip(got[i], exp[i])) if a != b]
             how = "+".join(f) + ("|file" if exp[i][1] is not None else "|field")
             if f == ["content"]:
                 g, x = got[i][2], exp[i][2]
@@ -335,7 +335,7 @@ def collect_events(d, out, state):
         if isinstance(ev, Field):
             state["cur"] = [ev.name, None, b"", None]
         elif isinstance(ev, File):
-            state["cur"] = [ev.name, ev.filename, b"", ev.headers.get("content-type")]
+            state["cur"] = [ev.name, ev.filename, b"", MC.observed_headers(ev.filename, ev.headers)]
         elif isinstance(ev, Data):
             state["cur"][2] += ev.data
             if not ev.more_data:
